@@ -140,10 +140,16 @@ fn gen_ix(rng: &mut Rng) {
     let space = 8 + init_space(n, dl);
     let i_buf = ar.add(buf_key, gmsol_timelock::ID, 10_000_000, &vec![0u8; space], false, true, false);
     let mut infos: Vec<AccountInfo<'static>> = vec![];
+    // the accounts' own transaction-level signer privilege is independent of the requested `signers` list
+    // (e.g. the keeper lists itself in the buffered instruction); it must not leak into the stored flags
+    let mut tx_signers = 0;
     for (k, w) in &keys {
-        let i = ar.add(*k, anchor_lang::system_program::ID, 0, &[], false, *w, false);
+        let tx_signer = rng.chance(1, 3);
+        if tx_signer { tx_signers += 1; }
+        let i = ar.add(*k, anchor_lang::system_program::ID, 0, &[], tx_signer, *w, false);
         infos.push(ar.info(i));
     }
+    let _ = tx_signers;
     let loader: AccountLoader<'static, InstructionHeader> =
         AccountLoader::try_from_unchecked(&gmsol_timelock::ID, rf.r(ar.info(i_buf))).unwrap();
     let res = loader
@@ -233,6 +239,7 @@ struct Buf {
     ix: u64,
     idx: usize,  // arena index of the buffer account
     inner: usize, // arena index of the inner instruction's own account
+    with_payer: bool, // the creator (a transaction signer) is itself an account of the buffered instruction
     creator: u64,
     wanted: Instruction,
     napprove: u64,
@@ -357,29 +364,36 @@ fn gen_hist(rng: &mut Rng) {
                 let data = ix.to_le_bytes().to_vec();
                 let i_inner = ar.add(g9rt::key(1100 + ix + 50 * bufs.len() as u64), sys, 0, &[], false, false, false);
                 let i_buf = ar.add(g9rt::key(2000 + bufs.len() as u64 + 100 * ix), sys, 0, &[], false, false, false);
-                let metas = [(ip(caller), true, true), (i_store, false, false), (i_e, false, false), (i_buf, true, true),
+                // sometimes the creator lists itself (it signs this transaction) as an account of the buffered
+                // instruction, without asking for it to be a signer there
+                let with_payer = rng.chance(1, 2);
+                let mut metas = vec![(ip(caller), true, true), (i_store, false, false), (i_e, false, false), (i_buf, true, true),
                     (i_ixprog, false, false), (i_store_prog, false, false), (i_sys, false, false),
                     (i_inner, false, true), (i_w, false, false)];
-                let r = tl_call(&mut ar, &metas, tix::CreateInstructionBuffer { num_accounts: 2, data_len: data.len() as u16, data: data.clone(), signers: vec![1] }.data());
+                if with_payer { metas.push((ip(caller), true, true)); }
+                let r = tl_call(&mut ar, &metas, tix::CreateInstructionBuffer { num_accounts: metas.len() as u16 - 7, data_len: data.len() as u16, data: data.clone(), signers: vec![1] }.data());
                 let _ = g9rt::take_invokes();
                 let rs = match r {
                     Ok(()) => {
                         let loader: AccountLoader<'static, InstructionHeader> = AccountLoader::try_from(rf.r(ar.info(i_buf))).unwrap();
                         let wanted = loader.load_instruction().unwrap().to_instruction(false).unwrap();
                         // what was asked for, stated independently
-                        let expect = Instruction { program_id: g9rt::key(1200), data,
+                        let mut expect = Instruction { program_id: g9rt::key(1200), data,
                             accounts: vec![AccountMeta { pubkey: ar.mems[i_inner].key(), is_signer: false, is_writable: true },
                                            AccountMeta { pubkey: wallet, is_signer: true, is_writable: false }] };
-                        assert_eq!(wanted, expect);
+                        if with_payer { expect.accounts.push(AccountMeta { pubkey: key_of(caller), is_signer: false, is_writable: true }); }
+                        let stored_ok = wanted == expect;
+                        if !stored_ok { eprintln!("c36: stored instruction differs from the requested one: {wanted:?} vs {expect:?}"); }
                         {
                             let h = loader.load().unwrap();
                             assert_eq!(*h.executor(), ek);
                             assert_eq!(*h.rent_receiver(), key_of(caller));
                         }
-                        bufs.push(Buf { open: true, role, ix, idx: i_buf, inner: i_inner, creator: caller, wanted, napprove: 0, approved: false, approver: 0, approved_at: 0 });
+                        bufs.push(Buf { open: true, role, ix, idx: i_buf, inner: i_inner, with_payer, creator: caller, wanted: expect, napprove: 0, approved: false, approver: 0, approved_at: 0 });
                         next_ix += 1;
                         let id = bufs.len() as u64 - 1;
-                        snap(&mut bufs, &ar, Some(id), now, nexec, &mut rf)
+                        // code 98 (never produced by the model): the buffer does not hold the requested instruction
+                        if stored_ok { snap(&mut bufs, &ar, Some(id), now, nexec, &mut rf) } else { "Err 98".to_string() }
                     }
                     Err(e) => format!("Err {}", pcode(&e)),
                 };
@@ -446,12 +460,16 @@ fn gen_hist(rng: &mut Rng) {
                     None => Err(5),
                     Some(bf) => {
                         let (i_e, i_w, _, wallet) = executors[bf.role as usize];
-                        let metas = [(ip(caller), true, false), (i_store, false, false), (i_config, false, false), (i_e, false, false), (i_w, false, true),
+                        // when the creator is an account of the buffered instruction and also sends this transaction,
+                        // the runtime hands it over with its signer privilege
+                        let payer_signs = bf.with_payer && bf.creator == caller;
+                        let mut metas = vec![(ip(caller), true, false), (i_store, false, false), (i_config, false, false), (i_e, false, false), (i_w, false, true),
                             (ip(bf.creator), false, true), (bf.idx, false, true), (i_store_prog, false, false),
                             (bf.inner, false, true), (i_w, false, false), (i_ixprog, false, false)];
+                        if bf.with_payer { metas.push((ip(bf.creator), payer_signs, true)); }
                         if bf.open {
                             // the wallet of another executor is refused
-                            let mut m2 = metas;
+                            let mut m2 = metas.clone();
                             m2[4].0 = executors[((bf.role + 1) % 3) as usize].1;
                             assert!(tl_call(&mut ar, &m2, tix::ExecuteInstruction {}.data()).is_err());
                         }
@@ -461,14 +479,16 @@ fn gen_hist(rng: &mut Rng) {
                         let sent: Vec<Instruction> = g9rt::take_invokes().into_iter().filter(|i| i.program_id != gmsol_store::ID).collect();
                         match &r {
                             Ok(()) => {
-                                // exactly the buffered instruction went out, signed by the executor wallet only
-                                assert_eq!(sent, vec![bf.wanted.clone()]);
-                                assert!(sent[0].accounts.iter().all(|a| !a.is_signer || a.pubkey == wallet));
                                 assert_eq!(ar.mems[ip(bf.creator)].lamports(), before);
+                                // exactly the requested instruction went out, signed by the executor wallet only;
+                                // code 97 (never produced by the model) otherwise
+                                if sent != vec![bf.wanted.clone()] || !sent[0].accounts.iter().all(|a| !a.is_signer || a.pubkey == wallet) {
+                                    eprintln!("c36: executed {sent:?}, requested {:?}", bf.wanted);
+                                    Err(97)
+                                } else { r }
                             }
-                            Err(_) => assert!(sent.is_empty()),
+                            Err(_) => { assert!(sent.is_empty()); r }
                         }
-                        r
                     }
                 };
                 if r == Err(2) && bufs[id as usize].approved { any_reject_time = true; }
